@@ -160,20 +160,4 @@ Section Cbs.
       <| ns_nnot := S (ns_nnot s) |>
       <| ns_running := if fin then false else ns_running s |>.
 
-  Lemma notify_user_frag : forall f k ai fin s a,
-      ns_ls s = default_listeners -> ns_obs s = [] ->
-      nth_error (ns_apis s) ai = Some a ->
-      notify_user tasks env (S (S f)) k ai fin s = Ok (tt, notified k a fin s).
-  Proof.
-    intros f k ai fin s a Hls Hobs Ha.
-    destruct Hq as (Himm & Hreact & Hmut).
-    destruct s as [pl tr cbs pd apis sp fp fr ti aw rn cn tid sid ls obs lg q nss nnot pend].
-    cbn in Hls, Hobs, Ha. subst ls obs.
-    cbn [notify_user]. unfold nbind, nget, nmod, nret, nlog, get_api, set_api. cbn [ns_ls ns_apis List.length default_listeners].
-    destruct k; cbn; rewrite ?Ha; cbn; rewrite ?Ha; cbn; rewrite ?Hmut, ?Himm, ?Hreact; cbn;
-      rewrite ?orb_true_r; cbn.
-    all: try (rewrite (upd_same _ _ _ Ha (with_params_same a))).
-    all: cbn; rewrite ?Ha; cbn.
-    all: unfold notified, notif_of; cbn; destruct fin; cbn; try reflexivity.
-  Qed.
 End Cbs.
